@@ -22,7 +22,6 @@
 #include <string.h>
 
 static const int MAX_REG_STR_LEN = 5;
-static const unsigned int CHECK_8_BIT = 0x81;
 static const int NO_PREFIX_COL = 1;
 static const int REG_16BIT_COL = 2;
 static const int REG_32BIT_COL = 3;
@@ -98,10 +97,9 @@ int find_mem_const(char *mem, bool *neg, int *base) {
 
 uint32_t process_neg_disp(uint32_t neg_num) {
   // convert neg_num to negative 2's complement representation
+  // the value is kept sign extended to 32 bits: a displacement without a base
+  // register is always emitted as disp32 (only its low byte is used for disp8)
   uint32_t new_disp = ~neg_num + 1;
-  if (neg_num < CHECK_8_BIT)
-    new_disp &= MAX_UNSIGNED_8BIT;
-  ;
   return new_disp;
 }
 
